@@ -44,3 +44,8 @@ package extgrpc
 //@   ensures err == nil ==> result == codes.OK
 //@   ensures err != nil && !ifOk(err, closure("extgrpc.GetGrpcCode$1")) ==> result == codes.Unknown
 //@   ensures err != nil && ifOk(err, closure("extgrpc.GetGrpcCode$1")) ==> typeis(ifVal(err, closure("extgrpc.GetGrpcCode$1")), codes.Code) && result == ifVal(err, closure("extgrpc.GetGrpcCode$1")).(codes.Code)
+
+//@ func encodeGrpcStatus
+//@   props C03
+//@   ensures[C03] safeSeq(result1)
+//@   loop 1: invariant safeSeq(details)
